@@ -175,6 +175,78 @@ def sensitive(case: dict) -> bool:
     return False
 
 
+def run_reconfigure(ch, defaults: dict, n: int) -> None:
+    """One finder instance that outlives a change of the settings (Django keeps one instance per finder class): built
+    while configuration A is in force, asked while configuration B is — what it exposes must be what B says
+    (seeded/C17-5: patterns compiled once at construction).  Oracle: the property's own predicate on the relative path;
+    prefix-sensitive pattern sets (the listed finding) are left out."""
+    from django.test import override_settings
+
+    from django_components.finders import ComponentsFileSystemFinder
+
+    def conv(ps):
+        return None if ps is None else [re.compile(v) if k == "r" else v for k, v in ps]
+
+    def comps_of(case, root):
+        comps = {"dirs": [root], "app_dirs": [], "autodiscover": False}
+        if case["allowed"] is not None:
+            comps["static_files_allowed"] = conv(case["allowed"])
+        if case["forbidden"] is not None:
+            comps["static_files_forbidden"] = conv(case["forbidden"])
+        return comps
+
+    done = 0
+    for i in range(n * 6):
+        if done >= n:
+            break
+        r = core.rng(PROP, "reconfigure", i)
+        a, b = gen_case(r, False), gen_case(r, False)
+        if sensitive(a) or sensitive(b):
+            continue
+        files = a["files"]
+        _CASE_NO[0] += 1
+        base = os.path.join(tempfile.gettempdir(), "djc_c17_%d_%d" % (os.getpid(), _CASE_NO[0]))
+        shutil.rmtree(base, ignore_errors=True)
+        os.makedirs(base)
+        try:
+            base = os.path.realpath(base)
+            root = os.path.join(base, "components")
+            for f in files:
+                p = os.path.join(root, f)
+                os.makedirs(os.path.dirname(p), exist_ok=True)
+                open(p, "w").write("x")
+            allowed = b["allowed"] if b["allowed"] is not None else [("s", x) for x in defaults["static_files_allowed"]]
+            forbidden = b["forbidden"] if b["forbidden"] is not None else [("s", x) for x in defaults["static_files_forbidden"]]
+
+            def matches(pt, x):
+                k, v = pt
+                return x.endswith(v) if k == "s" else re.search(v, x) is not None
+            if not all(matches(p_, os.path.join(root, f)) == matches(p_, f) for p_ in allowed + forbidden for f in files):
+                continue
+            exp = sorted(f for f in files if any(matches(x, f) for x in allowed) and not any(matches(x, f) for x in forbidden))
+            with override_settings(COMPONENTS=comps_of(a, root), BASE_DIR=base, STATICFILES_DIRS=[]):
+                finder = ComponentsFileSystemFinder()
+                warm = sorted(p for p, _ in finder.list([]))
+            with override_settings(COMPONENTS=comps_of(b, root), BASE_DIR=base, STATICFILES_DIRS=[]):
+                try:
+                    got_list = sorted(p for p, _ in finder.list([]))
+                    got_find = sorted(f for f in files if finder.find(f))
+                except Exception as e:  # noqa
+                    got_list = got_find = "EXC:" + type(e).__name__
+            done += 1
+            ch.count("reconfigure", 1, 1)
+            ch.nontrivial(("reconfigure", tuple(files), str(a["allowed"]), str(b["allowed"]), str(b["forbidden"])))
+            if got_list != exp or got_find != exp:
+                ch.violation("impl-violates-spec", "reconfigure",
+                             {"files": files, "built_under": {"allowed": a["allowed"], "forbidden": a["forbidden"]},
+                              "asked_under": {"allowed": b["allowed"], "forbidden": b["forbidden"]}},
+                             impl={"list": got_list, "find": got_find, "list_when_built": warm},
+                             spec={"expected": exp, "clause": "valid_iff: a file is exposed iff the lists in force allow it and do not forbid it"})
+                return
+        finally:
+            shutil.rmtree(base, ignore_errors=True)
+
+
 def run(tier: str) -> int:
     ch = core.Check(PROP, tier, THEOREMS)
     ch.assumptions += [
@@ -234,6 +306,7 @@ def run(tier: str) -> int:
                          note="implementation satisfies the property's predicate but the Lean model differs")
             if sum(1 for v in ch.violations if v["kind"] == "model-impl-disagree") > 3:
                 break
+    run_reconfigure(ch, defaults, 60 if tier == "quick" else 800)
     ch.cov["rule"] = (
         f"{n} random trees of 2-9 files (names from {len(NAMES)} incl. multi-dot, upper-case, look-alike, metacharacter names; "
         f"dirs {DIRS}) x allowed/forbidden lists of 0-4 entries from {len(SUFFIXES)} suffix strings and {len(REGEXES)} compiled "
